@@ -84,13 +84,13 @@ def _c08_passes():
     if has_attr and default_flag is not True:
         die("ElabPass.REWRITES_MODULES must default to True (unknown passes are treated as rewriting)")
     elab_tree = src("hdl21/elab/elab.py")
-    f = find_func(elab_tree, "default", cls="Elaborator")
-    names = None
-    for n in _ast.walk(f):
-        if isinstance(n, _ast.keyword) and n.arg == "passes" and isinstance(n.value, _ast.List):
-            names = [e.id for e in n.value.elts if isinstance(e, _ast.Name)]
-    if not names:
-        die("Elaborator.default: passes=[...] literal not found")
+    # the entries of the live default Elaborator (the list of the source must agree when it can be read)
+    from hdl21.elab.elab import Elaborator
+    live = Elaborator.default().passes
+    names = [p.__name__ for p in live]
+    sp = source_pass_list()
+    if not names or (sp is not None and sp != names):
+        die(f"default passes: ast {sp} vs live {names}")
 
     def class_node(name):
         if name in _FILES:
@@ -117,10 +117,6 @@ def _c08_passes():
             flag = True
         return flag, found, marks, mark_last
 
-    from hdl21.elab.elab import Elaborator
-    live = Elaborator.default().passes
-    if [p.__name__ for p in live] != names:
-        die(f"default passes: ast {names} vs live {[p.__name__ for p in live]}")
     caches, rows = [], []
     for nm, p in zip(names, live):
         c = id(p.CLASS_LEVEL_CACHE)
@@ -136,13 +132,15 @@ def _c08_passes():
     uses = 0
     for rel, fn, cls in (("hdl21/elab/passes/base.py", "elaborate_module_base", "ElabPass"),
                          ("hdl21/proto/exporting.py", "export_module", "ProtoExporter")):
-        fnode = find_func(src(rel), fn, cls=cls)
+        ftree = src(rel)
+        fnode = _inline(find_func(ftree, fn, cls=cls), find_class(ftree, cls))
         if any(isinstance(n, _ast.Raise) and isinstance(n.exc, _ast.Attribute) and n.exc.attr == "_elab_failure"
                for n in _ast.walk(fnode)):
             uses += 1
     b = lambda x: "true" if x else "false"
     # the record must be set where a pass body raises
-    fnode = find_func(src("hdl21/elab/passes/base.py"), "elaborate_module_base", cls="ElabPass")
+    btree = src("hdl21/elab/passes/base.py")
+    fnode = _inline(find_func(btree, "elaborate_module_base", cls="ElabPass"), find_class(btree, "ElabPass"))
     sets = any(isinstance(n, _ast.Assign) and isinstance(n.targets[0], _ast.Attribute) and n.targets[0].attr == "_elab_failure"
                for n in _ast.walk(fnode))
     shape = _c08_shape()
@@ -205,10 +203,139 @@ def _guarded(fn, add_tail, rem_tail):
     return False
 
 
+
+# ---- helper extraction must not change what is read: one level of statement-level calls of helpers defined beside the function
+#      (`self.<h>(...)` -> a method of the same class, `<h>(...)` -> a function of the same module) is inlined before the shape
+#      is looked at.  The hooks the flags look FOR are never inlined.
+_ANCHORS = {"elaborate_module", "elaborate_module_base", "modules_below", "elaborate_tops", "run"}
+
+
+def _helper_of(call, scope):
+    """the FunctionDef a statement-level call refers to, or None: self.h(...) / cls.h(...) in a class scope, h(...) in a module"""
+    if not isinstance(call, _ast.Call):
+        return None
+    f = call.func
+    name = None
+    if isinstance(scope, _ast.ClassDef) and isinstance(f, _ast.Attribute) and isinstance(f.value, _ast.Name) and f.value.id in ("self", "cls"):
+        name = f.attr
+    elif isinstance(scope, _ast.Module) and isinstance(f, _ast.Name):
+        name = f.id
+    if name is None or name in _ANCHORS:
+        return None
+    found = [n for n in scope.body if isinstance(n, _ast.FunctionDef) and n.name == name]
+    if len(found) != 1 or any("contextmanager" in _ast.unparse(d) for d in found[0].decorator_list):
+        return None
+    return found[0]
+
+
+def _body_of(helper, how, target):
+    """the statements of the helper with every `return e` of its own (not of nested functions) turned into what the call
+    site does with the value: `target = e`, `return e`, or the bare expression"""
+    import copy
+
+    class R(_ast.NodeTransformer):
+        def visit_FunctionDef(self, n):
+            return n
+        visit_AsyncFunctionDef = visit_Lambda = visit_FunctionDef
+
+        def visit_Return(self, n):
+            if how == "return":
+                return n
+            if n.value is None:
+                return _ast.Pass()
+            if how == "assign":
+                return _ast.Assign(targets=[copy.deepcopy(target)], value=n.value, lineno=n.lineno, col_offset=0)
+            return _ast.Expr(value=n.value)
+
+    body = [copy.deepcopy(st) for st in helper.body]
+    if body and isinstance(body[0], _ast.Expr) and isinstance(body[0].value, _ast.Constant) and isinstance(body[0].value.value, str):
+        body = body[1:]
+    out = []
+    for st in body:
+        r = R().visit(st)
+        out.append(r)
+    return out or [_ast.Pass()]
+
+
+def _inline(fn, scope):
+    """a copy of fn with one level of helper calls inlined (see above)"""
+    import copy
+    fn = copy.deepcopy(fn)
+
+    def splice(stmts):
+        out = []
+        for st in stmts:
+            call, how, target = None, None, None
+            if isinstance(st, _ast.Expr):
+                call, how = st.value, "expr"
+            elif isinstance(st, _ast.Assign) and len(st.targets) == 1:
+                call, how, target = st.value, "assign", st.targets[0]
+            elif isinstance(st, _ast.Return):
+                call, how = st.value, "return"
+            h = _helper_of(call, scope) if call is not None else None
+            if h is not None and h.name != fn.name:
+                out += _body_of(h, how, target)
+                continue
+            for fld in ("body", "orelse", "finalbody"):
+                b = getattr(st, fld, None)
+                if isinstance(b, list) and b and isinstance(b[0], _ast.stmt) and not isinstance(st, (_ast.FunctionDef, _ast.ClassDef)):
+                    setattr(st, fld, splice(b))
+            if isinstance(st, _ast.Try):
+                for hd in st.handlers:
+                    hd.body = splice(hd.body)
+            out.append(st)
+        return out
+
+    fn.body = splice(fn.body)
+    return _ast.fix_missing_locations(fn)
+
+
+def _ctx_managers(fn, scope):
+    """the @contextmanager functions of the scope that fn enters through `with`"""
+    out = []
+    for n in _ast.walk(fn):
+        if isinstance(n, _ast.With):
+            for it in n.items:
+                c = it.context_expr
+                if isinstance(c, _ast.Call):
+                    name = c.func.id if isinstance(c.func, _ast.Name) else (c.func.attr if isinstance(c.func, _ast.Attribute) else None)
+                    for d in scope.body:
+                        if isinstance(d, _ast.FunctionDef) and d.name == name and any("contextmanager" in _ast.unparse(x) for x in d.decorator_list) \
+                                and d not in out:
+                            out.append(d)
+    return out
+
+
+def _guarded_unit(fn, scope, add_tail, rem_tail):
+    """_guarded over fn with its helpers inlined; or, when fn itself neither adds nor removes, over the ONE @contextmanager
+    it enters through `with` that does (add; try: yield; finally: remove) - every use of that manager must be a `with`"""
+    f = _inline(fn, scope)
+    if _calls(f, add_tail) or _calls(f, rem_tail):
+        return _guarded(f, add_tail, rem_tail)
+    cms = [c for c in _ctx_managers(f, scope) if _calls(c, add_tail) or _calls(c, rem_tail)]
+    if len(cms) != 1:
+        return False
+    cm = cms[0]
+    if not _guarded(cm, add_tail, rem_tail):
+        return False
+    # the `yield` sits in the try whose finally removes
+    ok = False
+    for t in [n for n in _ast.walk(cm) if isinstance(n, _ast.Try)]:
+        if any(_calls(x, rem_tail) for x in t.finalbody) and any(isinstance(n, _ast.Yield) for st in t.body for n in _ast.walk(st)):
+            ok = True
+    if not ok or sum(isinstance(n, _ast.Yield) for n in _ast.walk(cm)) != 1:
+        return False
+    # entered through `with` only
+    uses = [n for n in _ast.walk(scope) if isinstance(n, _ast.Name) and n.id == cm.name]
+    withs = [it.context_expr.func for w in _ast.walk(scope) if isinstance(w, _ast.With) for it in w.items if isinstance(it.context_expr, _ast.Call)]
+    return all(any(u is w for w in withs) for u in uses)
+
+
 def _c08_shape():
     base = src("hdl21/elab/passes/base.py")
-    emb = find_func(base, "elaborate_module_base", cls="ElabPass")
-    pend_ok = _guarded(emb, ["pending", "add"], ["pending", "remove"])
+    ecls = find_class(base, "ElabPass")
+    emb = _inline(find_func(base, "elaborate_module_base", cls="ElabPass"), ecls)
+    pend_ok = _guarded_unit(find_func(base, "elaborate_module_base", cls="ElabPass"), ecls, ["pending", "add"], ["pending", "remove"])
     rec_ok = False
     for t in [n for n in _ast.walk(emb) if isinstance(n, _ast.Try)]:
         if any(_calls(st, ["self", "elaborate_module"]) for st in t.body):
@@ -220,7 +347,7 @@ def _c08_shape():
                 first = h is t.handlers[0]
                 if catches_all and sets and reraises and first:
                     rec_ok = True
-    tops = find_func(base, "elaborate_tops", cls="ElabPass")
+    tops = _inline(find_func(base, "elaborate_tops", cls="ElabPass"), ecls)
     loops = [n for n in _ast.walk(tops) if isinstance(n, _ast.For)]
     sweep_ok = False
     if len(loops) == 2 and _calls(loops[0], ["self", "elaborate_module_base"]) and _calls(loops[1], ["self", "elaborate_module_base"]):
@@ -239,9 +366,10 @@ def _c08_shape():
         got = [m.name for m in ElabPass.modules_below([ms[0], ms[4]])]
         if got != _dfs_expected(ms) or sorted(got) != [f"W{i}" for i in range(5)]:
             die(f"ElabPass.modules_below is not the depth-first walk the model follows: {got} vs {_dfs_expected(ms)}")
-    gen = find_func(src("hdl21/generator.py"), "run")
-    gp_ok = _guarded(gen, ["pending", "add"], ["pending", "remove"])
-    gs_ok = _guarded(gen, ["stack", "append"], ["stack", "pop"])
+    gtree = src("hdl21/generator.py")
+    gen = find_func(gtree, "run")
+    gp_ok = _guarded_unit(gen, gtree, ["pending", "add"], ["pending", "remove"])
+    gs_ok = _guarded_unit(gen, gtree, ["stack", "append"], ["stack", "pop"])
     return [("c08_pass_pending_finally", pend_ok), ("c08_pass_record_base", rec_ok), ("c08_pass_sweep", sweep_ok),
             ("c08_gen_pending_finally", gp_ok), ("c08_gen_stack_finally", gs_ok)]
 
